@@ -208,7 +208,7 @@ class C20(Prop):
     title = "Immutable configuration: values change only through authorised, logged mutations"
     fixed_prefix = 1
     extractors = ["py2lean-genome", "eval-genome"]
-    quick_budget = 2200
+    quick_budget = 1600
     thorough_budget = 30000
     quick_deadline_s = 100
     thorough_deadline_s = 800
@@ -662,7 +662,7 @@ class C20(Prop):
         cL = [
             ["adv 0:7,0:1 -", "new 0 0 0 0:1:s:1:2 1:2:c:0:3", "mutate 0 0 7", f"repeat {big} mutate 0 1 5", "stats 0",
              "rollback 0 0", "stats 0"],
-            ["adv - -", "new 1 none 0 0:1:s:1:2 1:2:c:0:3", f"repeat {big // 2} mutate 0 0 7 / rollback 0 0", "stats 0",
+            ["adv - -", "new 1 none 0 0:1:s:1:2 1:2:c:0:3", f"repeat {260 if tier == 'quick' else big // 2} mutate 0 0 7 / rollback 0 0", "stats 0",
              "setallow 0 0", "mutate 0 0 5", "rollback 0 0", "setallow 0 1", "rollback 0 0"],
             ["adv 0:7 -", "new 0 0 0 0:1:s:1:2 1:2:c:0:3", "mutate 0 0 7", "repeat 180 add 0 0:9:s:1:2 / mutate 0 1 5 / rollback 0 1",
              "stats 0", "rollback 0 0"],
